@@ -278,6 +278,9 @@ class Run:
             d = cls(("luba232" if self.kind == "luba" else "scirs232") + ":/dev/fake")
             self.driver = d
             await d.connect()
+            if sc.get("trace_events"):
+                d.transaction_lock = LoggingLock(self.elog.append)
+                gw.elog = self.elog.append
 
     async def wait_connected(self):
         d = self.driver
@@ -318,7 +321,9 @@ class Run:
         res["t1"] = round(self.loop.time(), 6)
         self.callers[name]["_res"] = res
         self.elog.append({"ev": "done", "c": name, "exc": {"none": "none", "CancelledError": "Cancelled"}.get(res["exc"], res["exc"]),
-                            "nres": len(res["results"])})
+                            "nres": len(res["results"]),
+                            "res": [["none", 0] if r["k"] == "none" else ["noanswer", 0] if r["raw"][0] == "none" else list(r["raw"])
+                                    for r in res["results"]]})
 
     async def main(self):
         sc = self.sc
